@@ -85,7 +85,7 @@ def impl(case):
         except ValueError as ex:
             res.append({'build': 'skip:' + str(ex)})
             continue
-        if 'ImaginaryUnit' in json.dumps(tree):
+        if any(k in json.dumps(tree) for k in ('ImaginaryUnit', 'ComplexInfinity', 'NegativeInfinity', '"oo"', '"nan"')):
             res.append({'build': 'skip:complex'})
             continue
         tu = None if t is None else w.unit(t)
@@ -191,6 +191,8 @@ def compare(case, obs, replies):
         ms = md['strict'][0]
         if isinstance(ms, list) and ms[0] == 'unsupported':
             pass
+        elif o[3][0] == 'err' and o[3][1] not in UNIT_ERRORS and magnitude_trigger(o[1], o[3][1]):
+            pass   # Python arithmetic on an untracked magnitude (known findings of C04) pre-empts the model's verdict
         elif ms[0] == 'err':
             if o[3][0] != 'err' or o[3][1] != ms[1].replace('Other:', ''):
                 return '%s: strict inference of the result: model %s, implementation %s' % (where, ms, o[3])
